@@ -1,5 +1,6 @@
 import MesaModel.Proofs.CellDyn
 import MesaModel.Proofs.CellCollection
+import MesaModel.Proofs.CellHexMove
 /-!
 # C06 — cell spaces: `agent.cell` and `cell.agents` mirror each other; capacity; emptiness views
 
@@ -256,6 +257,38 @@ theorem C06_histories_with_connection_edits {sp0 : Space} (hsp0 : SpaceOK sp0) (
   obtain ⟨h1, h2, h3, h4, h5⟩ := drun_inv hsp0 (inv_init sp0) ops
   exact ⟨h1, ⟨sp0, ops, hsp0, rfl⟩, h2, h3, h4, h5, fun _ _ _ => ⟨rfl, rfl⟩, fun l => drun_ops sp0 (init sp0) l⟩
 
+/-- `Grid2DMovingAgent` direction names on a `HexGrid` (tables and `DIRECTION_MAP` as the source has them now):
+    the connection keys of a hex cell depend on the parity of its column `j = coordinate[1]`, so
+    (1) the cardinal names (n/s/e/w and synonyms) name a key at every cell, the names with a row step of −1 combined
+    with a column step (ne, nw, …) only in odd columns, those with a row step of +1 (se, sw, …) only in even columns;
+    (2) `move_relative(d)` / one step of `move` from cell (i, j) finds a cell iff `d` is in the table of j's parity
+    and the target — wrapped on a torus — is in bounds, and then it is that target;
+    (3) on a hex grid without wrapping a diagonal name never carries two steps (each diagonal step changes the
+    column parity): `move(name, k)` with k ≥ 2 raises "No cell in direction" from every cell and changes nothing. -/
+theorem C06_hex_direction_names :
+    (∀ j : Int, ∀ p ∈ Gen.directionMap,
+      ((p.2.1, p.2.2) ∈ hexTable j ↔
+        (p.2.1 = 0 ∨ p.2.2 = 0) ∨ (j % 2 ≠ 0 ∧ p.2.1 = -1) ∨ (j % 2 = 0 ∧ p.2.1 = 1))) ∧
+    (∀ (h w : Nat) (torus : Bool) (cap : Option Nat) (i j : Int) (d : Key) (c' : Cid),
+      connGet (gridSpace .hex [h, w] torus cap) [i, j] d = some c' ↔
+        ∃ di dj ni nj, d = [di, dj] ∧ c' = [ni, nj] ∧ (di, dj) ∈ hexTable j ∧
+          connect2d h w torus i j di dj = some (ni, nj)) ∧
+    (∀ (h w : Nat) (cap : Option Nat) (s : State) (a : Aid) (name : String) (k : Int) (di dj : Int) (c : Cid),
+      s.kinds[a]? = some .grid2d → dirVec name = some [di, dj] → di ≠ 0 → dj ≠ 0 → 2 ≤ k → s.cellOf a = some c →
+      step (gridSpace .hex [h, w] false cap) s (.gridMove a name k) = (s, .err .noCell)) := by
+  refine ⟨fun j => ?_, fun h w torus cap i j d c' => ?_, fun h w cap s a name k di dj c hk hd hi hj h2 hc => ?_⟩
+  · rcases Int.emod_two_eq j with h0 | h1
+    · simp only [hexTable, h0]; decide
+    · simp only [hexTable, h1]; decide
+  · show assocGet (gridConn .hex [h, w] torus [i, j]) d = some c' ↔ _
+    rw [assocGet_eq_some_iff (gridConn_keysNodup .hex [h, w] torus [i, j])]
+    exact mem_hexConn h w torus i j d c'
+  · have hk2 : k.toNat = (k.toNat - 2) + 2 := by omega
+    have hw := hex_diag_walk h w cap [di, dj] di dj rfl hi hj (k.toNat - 2) c
+    rw [← hk2] at hw
+    have hk0 : ¬ k ≤ 0 := by omega
+    simp only [step, hk, hd, hk0, if_false, hc, hw]
+
 /-! ### the `CellCollection` API (`all_cells`, `empties`, neighbourhoods, selections) -/
 
 /-- The agent views of a collection mirror `agent.cell`: after any history, for every collection of distinct
@@ -363,6 +396,17 @@ example : (step sp1 (run sp1 (init sp1) [.new .cell, .setCell 0 (some [0, 0])]) 
 example : (dstep (drun sp1 (init sp1) dops1).1 (drun sp1 (init sp1) dops1).2 (.connect [0, 0] [3, 3] none)).2 = .err .key := by decide
 example : ((drun sp1 (init sp1) (dops1 ++ [.disconnect [0, 0] [2, 2]])).1.conn [0, 0]).map (·.1) = [[0, 1], [1, 0]] := by decide
 example : (editSp (vorSpace 3 [(0, 1, 2)] none) (.connect [0] [1] none)).2 = .err .type := by decide
+
+-- hex: "ne" is a key in odd columns only; two diagonal steps are impossible, one is fine; cardinal names work everywhere
+private def hx : Space := gridSpace .hex [4, 4] false none
+private def hops : List Op := [.new .grid2d, .setCell 0 (some [2, 1])]
+example : dirVec "NE" = some [-1, 1] ∧ (step hx (run hx (init hx) hops) (.gridMove 0 "NE" 1)).2 = .ok ∧
+    (step hx (run hx (init hx) hops) (.gridMove 0 "NE" 1)).1.cellOf 0 = some [1, 2] ∧
+    (step hx (run hx (init hx) hops) (.gridMove 0 "NE" 2)).2 = .err .noCell ∧
+    (step hx (run hx (init hx) hops) (.gridMove 0 "se" 1)).2 = .err .noCell ∧
+    (step hx (run hx (init hx) hops) (.gridMove 0 "north" 2)).1.cellOf 0 = some [0, 1] := by decide
+-- … whereas on a torus of odd width the wrap keeps the parity and two diagonal steps can succeed
+example : walk (gridSpace .hex [4, 3] true none) [1, 1] 2 [0, 2] = some [2, 1] := by decide
 
 -- collections on the 2×2 torus of `ops0` (agents 0 at (0,0), 1 at (1,1), capacity 1)
 private def s0 : State := run sp0 (init sp0) ops0
